@@ -23,6 +23,8 @@ fi
 cd "$W" || exit 2
 demo_cmd=${demo_cmd//\/tmp\/seed\/[A-Z0-9]*\//$W/}
 demo_cmd=${demo_cmd//<worktree>/$W}
+# the demo file is already in place: keep only the `go test …` part of the recorded command
+demo_cmd=$(echo "$demo_cmd" | grep -o 'go test.*' | sed -E 's/&&.*$//' | head -1)
 demo_cmd=$(echo "$demo_cmd" | sed -E "s#/tmp/seed/C[0-9]+#$W#g")
 echo "== demo without change: $demo_cmd"
 if (eval "$demo_cmd") > /tmp/seedval-$N.clean.log 2>&1; then clean=pass; else clean=FAIL; fi
